@@ -48,6 +48,9 @@ def NeverHanded (res : Nat → Option Str → Int → (Nat → Fetched) → Exce
 def ValidLog (l : Log) : Prop := Gen.C30.logLevels.contains l.level = true
 def ValidStep (s : Step) : Prop := (∀ l ∈ s.logs, ValidLog l) ∧ (∀ l ∈ s.post, ValidLog l)
 
+/-- the store `s'` still holds every object `s` held (objects are immutable once uploaded; later uploads add objects) -/
+def Keeps {B : Type} (st : Storage B) (s s' : st.S) : Prop := ∀ u x, st.get s u = some x → st.get s' u = some x
+
 /-- Transparency of a stream: what the client observes (logs in order, data batches in order, terminal events) with
 offload under a configuration equals what it observes inline. -/
 def Transparent (external inline : List Ev) : Prop := obs external = obs inline
